@@ -525,8 +525,8 @@ fn resolve_regions(
                 return Some(());
             }
 
+            self.last_address = self.last_address.checked_add(size)?;
             self.regions.push(region);
-            self.last_address += size;
             Some(())
         }
     }
